@@ -65,7 +65,11 @@ BitOps  == {"bt","bts","btr","btc","bsf","bsr","shld","shrd","xadd","cmpxchg","x
 PtrClass == Alu2 \cup Shifts \cup Unary \cup BitOps
 MovX    == {"movzx","movsx"}
 MovXStem == [movzx |-> "movz", movsx |-> "movs"]
-Jcc     == {"jo","jno","jb","jae","je","jne","jbe","ja","js","jns","jp","jnp","jl","jge","jle","jg","jz","jnz","jecxz","loop"}
+\* every SDM name of the sixteen conditions (jcc / setcc / cmovcc take all of them)
+CcAll   == {"o","no","b","c","nae","ae","nb","nc","e","z","ne","nz","be","na","a","nbe","s","ns","p","pe","np","po",
+            "l","nge","ge","nl","le","ng","g","nle"}
+Jcc     == {"j" \o c : c \in CcAll} \cup {"jecxz","loop"}
+SetCc   == {"set" \o c : c \in CcAll}
 FltMem  == {"fld","fst","fstp","fadd","fsub","fmul","fdiv","fsubr","fdivr","fcom","fcomp"}
 IFltMem == {"fild","fist","fistp","fiadd","fisub","fimul","fidiv","fisubr","fidivr","ficom","ficomp"}
 FSubDiv == {"fsub","fsubr","fdiv","fdivr","fsubp","fsubrp","fdivp","fdivrp"}
@@ -79,13 +83,14 @@ Renamed == [movsd |-> "movsl", cmpsd |-> "cmpsl", stosd |-> "stosl", lodsd |-> "
 NoReverse == {"enter","jmpf","callf"}       \* AT&T keeps the Intel operand order here
 Branches == {"jmp","call","jmpf","callf"}
 ImmFollowsOperand == Alu2 \cup {"push","imul"}     \* immediate has the width of the operation
-CMov    == {"cmove","cmovne","cmovb","cmovae","cmovg","cmovl","cmovge","cmovle","cmova","cmovbe","cmovs","cmovns"}
+CMov    == {"cmov" \o c : c \in CcAll}
 ImpliedSize == ((Alu2 \cup Shifts \cup Unary \cup BitOps) \ {"lea","push","pop"}) \cup CMov   \* memory size = register size
 \* memory size fixed by the mnemonic, or by the class of the SIMD register next to it
-FixedMem == [movq |-> 64, fldcw |-> 16, fnstcw |-> 16, fnstsw |-> 16, movd |-> 32, movss |-> 32, addss |-> 32, ucomiss |-> 32, cvtsi2sd |-> 32,
+FixedMemTab == [movq |-> 64, fldcw |-> 16, fnstcw |-> 16, fnstsw |-> 16, movd |-> 32, movss |-> 32, addss |-> 32, ucomiss |-> 32, cvtsi2sd |-> 32,
              sete |-> 8, setne |-> 8, setb |-> 8, setg |-> 8, pinsrw |-> 16, jmp |-> 32, call |-> 32,
              movaps |-> 128, movups |-> 128, addps |-> 128, mulps |-> 128, xorps |-> 128, andps |-> 128, sqrtps |-> 128,
              movdqa |-> 128, movdqu |-> 128, pshufd |-> 128, shufps |-> 128]
+FixedMem == [m \in DOMAIN FixedMemTab \cup SetCc |-> IF m \in SetCc THEN 8 ELSE FixedMemTab[m]]
 Packed == {"paddb","paddd","paddq","pxor","pand","por","psubb","pcmpeqb"}      \* (punpckl* mm reads 32 bits: not implied here)
 \* ---------------------------------------------------------------- sizes
 RegSizes(ops) == {GprSize(ops[j].c) : j \in {j \in 1..Len(ops) : ops[j].k = "reg"}} \ {0}
